@@ -281,6 +281,45 @@ UNITS.append(Unit(ghost=True, cross_key=_key,
     call=run(False, F_ADDR, stack=(G_ADDR, K_ADDR)), native_call=run(True, F_ADDR, stack=(G_ADDR, K_ADDR))))
 
 
+# (g) the evaluation path belongs to ONE evaluator: a second evaluator (another workbook, a nested evaluation from a user function, another
+#     thread) that is busy with a cell of the same address does not make this cell a cycle
+def _two_evaluators(native):
+    def call(it, fn, value):
+        from xlcalculator import evaluator, model as Mo
+        if native:
+            busy = evaluator.Evaluator(Mo.Model(), {})
+        else:
+            busy = it.instantiate(evaluator.Evaluator, [Mo.Model(), {}], {})
+        ev, objs, log = make_world(native, value=value)
+        path = busy._evaluating
+        path.append(F_ADDR)                      # what evaluate() itself does on entry: the other evaluator is inside its own Sheet1!F1
+        try:
+            res, exc = None, None
+            try:
+                res = ev.evaluate(F_ADDR) if native else it.call(evaluator.Evaluator.evaluate, [ev, F_ADDR], {})
+            except RaiseEx as r:
+                exc = r.exc
+            except Exception as ex:      # noqa
+                exc = ex
+            return dict(res=res, exc=exc, log=log, stack_restored=(list(busy._evaluating) == [F_ADDR] and list(ev._evaluating) == []), objs=objs,
+                        events=None, F_value=objs['F'].value, F_need=objs['F'].need_update, K_value=objs['K'].value, G_value=objs['G'].value)
+        finally:
+            if path and path[-1] == F_ADDR:
+                path.pop()
+    if native:
+        return lambda fn, value: call(None, fn, value)
+    return call
+
+
+UNITS.append(Unit(ghost=True, cross_key=_key,
+    id='C06/evaluator.Evaluator/path_belongs_to_one_evaluator', target='xlcalculator.evaluator:Evaluator.evaluate', prop='C06',
+    inputs=[('value', SYMVAL)],
+    cases=[Case('a cell of the same address being evaluated by ANOTHER evaluator (constructed by the real __init__) is no cycle here: the value is returned, '
+                'both paths are as before', lambda v: True,
+                lambda v, out: out.kind == 'ret' and out.value['exc'] is None and out.value['res'] is v and out.value['stack_restored'])],
+    call=_two_evaluators(False), native_call=_two_evaluators(True)))
+
+
 # ---- EvaluatorContext: one fresh context per evaluation; memo local to the context -------------------------------------------
 def ctx_call(native):
     def call(it, fn):
@@ -356,7 +395,7 @@ UNITS.append(Unit(ghost=True, cross_key=_key,
 Q_ADDR = 'Sheet1!Q9'
 
 
-def history_call(native, how, second_evaluator=False):
+def history_call(native, how, second_evaluator=False, fail_first=False):
     """F1's formula reads one input cell through the REAL context (EvaluatorContext.eval_cell -> Evaluator.evaluate) and
     yields what it read.  The input is K1 (stored; also bound to the name `rate`) or Q9 (no cell at first)."""
     target = Q_ADDR if how == 'absent' else K_ADDR
@@ -364,7 +403,13 @@ def history_call(native, how, second_evaluator=False):
     def call(it, fn, v0, v1):
         from xlcalculator import evaluator, model as Mo, xltypes
 
+        calls = []
+
         def ast_eval(ctx):
+            calls.append(1)
+            if fail_first and len(calls) == 1:
+                # the formula fails with a Python exception for the input it finds (a date function on a serial out of range, ...)
+                raise RaiseEx(ValueError('boom')) if not native else ValueError('boom')
             if native:
                 return ctx.eval_cell(target)
             return it.call(type(ctx).eval_cell, [ctx, target], {})
@@ -390,7 +435,12 @@ def history_call(native, how, second_evaluator=False):
 
         def do(f_, *a):
             return f_(*a) if native else it.call(getattr(evaluator.Evaluator, f_.__name__), [f_.__self__] + list(a), {})
-        r1 = do(ev.evaluate, F_ADDR)
+        try:
+            r1 = do(ev.evaluate, F_ADDR)
+        except (RaiseEx, RuntimeError) as ex:
+            if not fail_first:
+                raise
+            r1 = 'FAILED'                          # the caller catches the failure and carries on
         if where is not None:
             do(ev.set_cell_value, where, v1)
         r2 = do(ev.evaluate, F_ADDR)
@@ -429,6 +479,13 @@ def history_ens(how, second):
     return ens
 
 
+def history_fail_ens(v0, v1, out):
+    if out.kind != 'ret':
+        return False
+    s = out.value
+    return And(s['r1'] == 'FAILED', _as_excel(s['r2'], v1), _as_excel(s['r3'], v1))
+
+
 def _hkey(s):
     return repr((s['r1'], s['r2'], s['r3'])) if isinstance(s, dict) else repr(s)
 
@@ -442,6 +499,15 @@ for _how, _second, _prop in (('address', False, 'C04'), ('name', False, 'C04'), 
         cases=[Case('after an input is changed (by address, through its defined name, or by giving a value to a cell that did not exist) a formula yields what a fresh evaluation of the current inputs yields - for every evaluator over the model',
                     lambda *a: True, history_ens(_how, _second))],
         call=history_call(False, _how, _second), native_call=history_call(True, _how, _second), bounded_domain_cap=80))
+
+
+UNITS.append(Unit(ghost=True, cross_key=_hkey,
+    id='C04/evaluator.Evaluator/history[evaluate FAILS; set input; evaluate; a second evaluator]',
+    target='xlcalculator.evaluator:Evaluator.evaluate', prop='C04',
+    inputs=[('v0', CONSTS), ('v1', CONSTS)], fork='star',
+    cases=[Case('an evaluation that failed with a Python exception (and was caught by the caller) leaves nothing behind: after the input is corrected the '
+                'formula yields what a fresh evaluation yields, on the same evaluator and on another', lambda *a: True, history_fail_ens)],
+    call=history_call(False, 'address', True, fail_first=True), native_call=history_call(True, 'address', True, fail_first=True), bounded_domain_cap=80))
 
 
 # ---- Model.set_cell_value: a name stands for its cell (C04, C13) ----------------------------------------------------------------------------
